@@ -46,19 +46,21 @@ def definition(kind, stream, n):
 class SignalSpec(object):
     """BFS harness: events ('append', asset, price); closes under the trailing-window abstraction."""
 
-    def __init__(self, kind, assets, lookbacks, prices):
+    def __init__(self, kind, assets, lookbacks, prices, known=None):
         self.kind, self.assets, self.lookbacks, self.prices = kind, list(assets), list(lookbacks), list(prices)
+        # assets known when the signal is created; the others appear later (as a dynamic universe does it)
+        self.known = list(assets) if known is None else list(known)
         self.maxw = max(lookbacks) + 1
 
     def case(self, hist):
         return {'part': 'definitions', 'kind': self.kind, 'assets': self.assets, 'lookbacks': self.lookbacks,
-                'history': [list(e) for e in hist]}
+                'known': self.known, 'history': [list(e) for e in hist]}
 
     def initial(self):
         return [()]
 
     def build(self, hist):
-        sig = make_signal(self.kind, self.assets, self.lookbacks)
+        sig = make_signal(self.kind, self.known, self.lookbacks)
         solo = {(a, n): make_signal(self.kind, [a], [n]) for a in self.assets for n in self.lookbacks}
         streams = {a: [] for a in self.assets}
         for ev in hist:
@@ -76,6 +78,8 @@ class SignalSpec(object):
             for n in self.lookbacks:
                 if self.kind == 'sma' and not streams[a]:
                     continue
+                if not streams[a] and a not in self.known:
+                    continue        # an asset the signal has never heard of has no window to query
                 try:
                     got = sig(a, n)
                     alone = solo[(a, n)](a, n)
@@ -149,7 +153,7 @@ def cadence_cfgs(item):
     for label, entry in variants:
         cfg = {'start': start.isoformat(), 'end': end.isoformat(), 'burn_in': None, 'assets': ['EQ:AAA', 'EQ:BBB'],
                'alpha': {'kind': 'fixed', 'weights': {'EQ:AAA': 1.0}}, 'rebalance': 'daily', 'weekday': None,
-               'long_only': True, 'buffer': 0.05, 'fee': ['zero'], 'cash': 10007.31, 'signals': {'lookbacks': [12]}}
+               'long_only': True, 'buffer': 0.05, 'fee': ['zero'], 'cash': 10007.31, 'signals': {'lookbacks': [12, 2]}}
         if label == 'static':
             cfg['universe'] = {'kind': 'static'}
         else:
@@ -180,10 +184,27 @@ def check_cadence(label, entry, days, cfg, market, handler):
             if not mine and want:
                 fails.append({'clause': 'C16.cadence', 'detail': {'signal': name, 'asset': asset, 'observed': None,
                                                                   'expected': want}})
-            for k, got in mine:
-                if len(got) != len(want) or not all(close(a, b) for a, b in zip(got, want)):
-                    fails.append({'clause': 'C16.cadence', 'detail': {'signal': name, 'buffer': k, 'observed': got,
-                                                                      'expected': want, 'entry': str(e)}})
+            longest = max(mine, key=lambda kv: len(kv[1]))[1] if mine else []
+            if mine and (len(longest) != len(want) or not all(close(a, b) for a, b in zip(longest, want))):
+                fails.append({'clause': 'C16.cadence', 'detail': {'signal': name, 'asset': asset, 'observed': longest,
+                                                                  'expected': want, 'entry': str(e)}})
+            # and the values the user reads, for every lookback, against the definitions on exactly those closes
+            kind = {'mom': 'momentum', 'sma': 'sma', 'vol': 'vol'}[name]
+            stream = [Fraction(repr(x)) for x in want]
+            for n in (2, 12):
+                if not stream:
+                    continue
+                try:
+                    got_v = sig(asset, n)
+                except Exception as ex:  # noqa
+                    fails.append({'clause': 'C16.signal_error', 'detail': {'signal': name, 'asset': asset, 'lookback': n,
+                                                                           'error': repr(ex)}})
+                    continue
+                want_v = definition(kind, stream, n)
+                if not close(got_v, want_v, 1e-7):
+                    fails.append({'clause': 'C16.%s_definition' % kind,
+                                  'detail': {'asset': asset, 'lookback': n, 'impl': float(got_v), 'ref': want_v,
+                                             'closes_since_entry': want, 'entry': str(e)}})
     return fails[:3]
 
 
@@ -236,10 +257,17 @@ def run(tier, res, is_known):
             fix = fix and res.parts[-1]['fixpoint']
             if any(not is_known(v) for v in res.violations):
                 return
+            if len(lbs) >= 2:
+                # the same stream for an asset that was NOT known when the signal was created
+                spec = SignalSpec(kind, ['A'], lbs, prices, known=[])
+                bfs(spec, 4 * (max(lbs) + 2), res, is_known, label='%s %s late asset' % (kind, lbs), recheck=10)
+                fix = fix and res.parts[-1]['fixpoint']
+                if any(not is_known(v) for v in res.violations):
+                    return
         two_prices = ['1', '2'] if tier == 'quick' else ['1', '2', '3.5']
         for lbs in ([1, 2], [3]) if tier == 'quick' else ([1, 2], [3], [1, 3]):
-            spec = SignalSpec(kind, ['A', 'B'], lbs, two_prices)
-            bfs(spec, 4 * (max(lbs) + 2), res, is_known, label='%s %s two assets' % (kind, lbs), recheck=10)
+            spec = SignalSpec(kind, ['A', 'B'], lbs, two_prices, known=['A'])
+            bfs(spec, 4 * (max(lbs) + 2), res, is_known, label='%s %s two assets (B late)' % (kind, lbs), recheck=10)
             fix = fix and res.parts[-1]['fixpoint']
             if any(not is_known(v) for v in res.violations):
                 return
@@ -252,7 +280,7 @@ def run(tier, res, is_known):
 
 def replay(case):
     if case['part'] == 'definitions':
-        spec = SignalSpec(case['kind'], case['assets'], case['lookbacks'], [])
+        spec = SignalSpec(case['kind'], case['assets'], case['lookbacks'], [], known=case.get('known'))
         return spec.evaluate(tuple(tuple(e) for e in case['history']))[1]
     d = scratch_dir('qsc16r-')
     try:
